@@ -131,6 +131,36 @@ def diff_canon(a, b, relaxed_prims=False, emptied_ok=False):
     return None
 
 
+def alias_ports(n, rng):
+    """Aliased header ports  module m(.a({a_int[1:0]}), .b({a[1:0]}), y):  the net behind a port is called something else -
+    possibly like ANOTHER port of the module.  Made on the parsed netlist by renaming nets (what the reader builds from such a
+    header); returns the number of aliased ports."""
+    k = 0
+    for l in n.libraries:
+        for d in l.definitions:
+            if not d.children or not d.references:
+                continue
+            cands = []
+            for p in d.ports:
+                cs = set(pin.wire.cable for pin in p.pins if pin.wire is not None)
+                if len(cs) == 1 and all(pin.wire is not None for pin in p.pins):
+                    c = next(iter(cs))
+                    if c.name == p.name and len(c.wires) == len(p.pins) and "\\" not in (c.name or "\\"):
+                        cands.append((p, c))
+            rng.shuffle(cands)
+            if cands and rng.random() < 0.7:
+                (p, c) = cands[0]
+                try:
+                    c.name = p.name + "_int"
+                    k += 1
+                    if len(cands) > 1 and rng.random() < 0.6:
+                        cands[1][1].name = p.name       # the net behind the second port now carries the FIRST port's name
+                        k += 1
+                except ValueError:
+                    pass
+    return k
+
+
 def run_case(ctx, i, rng):
     me = sys.modules[__name__]
     d = tempfile.mkdtemp(prefix="c04_")
@@ -159,6 +189,8 @@ def run_case(ctx, i, rng):
             except Exception:  # noqa: BLE001 - C06's business
                 ctx.count("source_rejected_by_reader")
                 return
+        if i % 3 == 1 and i % 6 != 5:
+            ctx.count("aliased_header_ports", alias_ports(n, rng))
         transform = rng.choice(["none", "none", "uniquify", "flatten", "clone"])
         rename_flat = False
         if transform == "flatten" and common.fenced(me, "flattened-names-written-unescaped"):
